@@ -263,6 +263,18 @@ def run(ctx: Context, rep) -> None:
     rep.ob("C20.gate", bool(gate_nodes) and not missed, loc=load.loc(),
            where=load.qualname, construct="gate -> return dataset_info",
            message="no description is returned without passing the gate")
+    # the refusal leaves _load: no enclosing handler turns the gate's raise
+    # into a normal return
+    for g in gates:
+        for r_ in [n for n in cfg.nodes if n.kind == "stmt" and isinstance(
+                n.ast, ast.Raise) and any(x is n.ast for s in g.body + g.orelse
+                                          for x in ast.walk(s))]:
+            swallowed = cfg.exit in cfg.reachable([r_])
+            rep.ob("C20.gate", not swallowed, loc=load.loc(r_.ast),
+                   where=load.qualname, construct=short(r_.ast, 70),
+                   message="the version refusal must propagate to the caller "
+                   "(an enclosing except clause catches it and the "
+                   "description is returned anyway)")
     mv = [c for c in load.calls() if isinstance(c.func, ast.Attribute) and
           c.func.attr == "model_validate_json"]
     p0 = [p for p in load.params() if p not in ("self", "cls")][0]
@@ -519,6 +531,41 @@ def run(ctx: Context, rep) -> None:
                        short(r.value, 30) for r in rets if r.value is not None),
                    message="a validator checks, it does not rewrite")
     rep.floor("C20.validators", n_val, 2, "validators")
+    # ... nor does the model configuration: pydantic options that transform
+    # values while validating (frozen table) are off in persisted models
+    TRANSFORMING = {"str_strip_whitespace", "str_to_lower", "str_to_upper",
+                    "coerce_numbers_to_str", "strip_whitespace", "to_lower",
+                    "to_upper", "anystr_strip_whitespace", "anystr_lower",
+                    "anystr_upper"}
+    n_models = 0
+    for ci in model_classes(ctx).values():
+        n_models += 1
+        bad_opts = []
+        for n_ in ast.walk(ci.node):
+            if isinstance(n_, ast.keyword) and n_.arg in TRANSFORMING and not (
+                    isinstance(n_.value, ast.Constant) and
+                    n_.value.value in (False, None)):
+                bad_opts.append((n_.value, f"{n_.arg}={short(n_.value, 20)}"))
+            if isinstance(n_, ast.Dict):
+                for k_, v_ in zip(n_.keys, n_.values):
+                    if const_str(k_) in TRANSFORMING and not (
+                            isinstance(v_, ast.Constant) and
+                            v_.value in (False, None)):
+                        bad_opts.append((v_, f"{const_str(k_)!r}: "
+                                         f"{short(v_, 20)}"))
+            if isinstance(n_, ast.Assign) and any(
+                    isinstance(t_, ast.Name) and t_.id in TRANSFORMING
+                    for t_ in n_.targets) and not (
+                        isinstance(n_.value, ast.Constant) and
+                        n_.value.value in (False, None)):
+                bad_opts.append((n_, short(n_, 50)))   # class Config: x = True
+        rep.ob("C20.validators", not bad_opts,
+               loc=f"{ci.module.relpath}:{bad_opts[0][0].lineno}" if bad_opts
+               else f"{ci.module.relpath}:{ci.node.lineno}", where=ci.name,
+               construct=(bad_opts[0][1] if bad_opts else
+                          "no value-transforming model / field option"),
+               message="a persisted model must validate, not rewrite: the "
+               "reopened text would differ from the text that was written")
 
 
 
@@ -529,6 +576,15 @@ _DW = "src/sedpack/io/dataset_writing.py"
 _SM = "src/sedpack/io/shard_file_metadata.py"
 _MD = "src/sedpack/io/metadata.py"
 SELFTESTS = [
+    dict(rule="C20.validators", name="metadata-strips-whitespace", expect="fire", path=_MD,
+         old='    description: str = ""\n    dataset_license',
+         new='    model_config = {"str_strip_whitespace": True}\n    description: str = ""\n    dataset_license'),
+    dict(rule="C20.validators", name="strip-off-twin", expect="silent", path=_MD,
+         old='    description: str = ""\n    dataset_license',
+         new='    model_config = {"str_strip_whitespace": False}\n    description: str = ""\n    dataset_license'),
+    dict(rule="C20.gate", name="refusal-swallowed-by-handler", expect="fire", path=_DB,
+         old="        if semver.Version.parse(dataset_info.metadata.sedpack_version).compare(\n                sedpack.__version__) > 0:\n            raise ValueError(f\"Dataset-lib module is outdated, \"\n                             f\"sedpack_version: {sedpack.__version__}, \"\n                             f\"but dataset was created using: \"\n                             f\"{dataset_info.metadata.sedpack_version}\")\n",
+         new="        try:\n            if semver.Version.parse(dataset_info.metadata.sedpack_version).compare(\n                    sedpack.__version__) > 0:\n                raise ValueError(\"Dataset-lib module is outdated\")\n        except ValueError:\n            pass\n"),
     dict(rule="C20.reloc", name="fileinfo-absolute", expect="fire", path=_U,
          old="        file_path=relative_path,\n", new="        file_path=file_path,\n"),
     dict(rule="C20.reloc", name="config-path-not-relative", expect="fire", path=_DW,
